@@ -286,7 +286,12 @@ unsigned int conf_parse_volume(const char *value, int *success)
         total += partial << 20;
         partial = 0;
         break;
+    default:
+        /* Not a digit or a unit: stop here and report failure. */
+        pos--;
+        goto out;
     }
+out:
     if (success)
         *success = (*pos == '\0');
     return total + partial;
